@@ -19,7 +19,7 @@ pub fn meta() -> Meta {
     Meta {
         id: "C06",
         level: "exploration",
-        rule: "forged tables through the real apply_filters+write_fasta and filter(update_kmers)+iter, compared with the row predicate of the statement: (a) every row over the 16 symbols {A,C,G,T,-,R,Y,S,W,K,M,B,D,H,V,N} for 1..3 samples and over {A,C,-,N,R,S} for 4..5 samples (thorough: all 16 symbols for 4 samples, {A,C,G,-,N,R,S,W} for 5) as a one-row table; (b) every ordered pair of 40 representative rows and every ordered triple of 12 (3 samples), both update_kmers settings, so the three parallel vectors must stay aligned under removal; (c) 6..12 samples with 'j copies of x, rest y' rows; each x 4 site filters x ambig-mask x no-gap-only-sites x filter-ambig-as-missing x every threshold 0..n (frequencies (t-1/2)/n, and additionally t/n where that product is exact in f64); plus a tables of every row count 1..200 (thorough 600) and of 31..129 samples under a selection of specifications; CLI family (each case as a k=5 file and, under 32-letter keys, as a k=33 file read through the 128-bit arm) through `ska align` option parsing; decimal --min-freq values whose product with 10 / 20 samples is a whole number, through `ska align` and `ska weed`. Non-trivial = a (table, setting) pair; distinct outcomes = distinct expected column multisets.".into(),
+        rule: "forged tables through the real apply_filters+write_fasta and filter(update_kmers)+iter, compared with the row predicate of the statement: (a) every row over the 16 symbols {A,C,G,T,-,R,Y,S,W,K,M,B,D,H,V,N} for 1..3 samples and over {A,C,-,N,R,S} for 4..5 samples (thorough: all 16 symbols for 4 samples, {A,C,G,-,N,R,S,W} for 5) as a one-row table; (b) every ordered pair of 40 representative rows and every ordered triple of 12 (3 samples), both update_kmers settings, so the three parallel vectors must stay aligned under removal; (c) 6..12 samples with 'j copies of x, rest y' rows; (c2) symbol-rich rows for 7..12 samples: m = 0..n-1 distinct non-base symbols (every rotation of the eleven ambiguity codes and the gap) followed by bases in four patterns, and the mirrored row; each x 4 site filters x ambig-mask x no-gap-only-sites x filter-ambig-as-missing x every threshold 0..n (frequencies (t-1/2)/n, and additionally t/n where that product is exact in f64); plus a tables of every row count 1..200 (thorough 600) and of 31..129 samples under a selection of specifications; CLI family (each case as a k=5 file and, under 32-letter keys, as a k=33 file read through the 128-bit arm) through `ska align` option parsing; decimal --min-freq values whose product with 10 / 20 samples is a whole number, through `ska align` and `ska weed`. Non-trivial = a (table, setting) pair; distinct outcomes = distinct expected column multisets.".into(),
         assumptions: vec!["all-gap rows are unreachable (asserted as an invariant by C10) and excluded".into(), "thresholds use frequencies whose ceil is robust in f64 (DESIGN §4 rule 2)".into()],
         exhaustive_when_uncapped: true,
     }
@@ -299,6 +299,52 @@ pub fn run(ctx: &Ctx, rep: &mut Report) {
                 }
             }
             rep.completed.push(format!("(c) {n} samples"));
+        }
+    }
+    // (c2) rows that are rich in symbols: m distinct non-base symbols (a rotation of the eleven ambiguity codes and the
+    // gap) followed by bases in four patterns, and the mirrored row, for 7..12 samples
+    if !capped {
+        let amb: &[u8; 12] = b"RYSWKMBDHVN-";
+        'c2: for n in 7..=12usize {
+            let specs = all_specs(n);
+            for r in 0..12usize {
+                for m in 0..n {
+                    for pat in 0..4usize {
+                        for mirror in [false, true] {
+                            idx += 1;
+                            if !ctx.mine(idx) {
+                                continue;
+                            }
+                            if !thorough && (r + m + pat + mirror as usize) % 2 == 1 {
+                                continue;
+                            }
+                            let rest = n - m;
+                            let mut row: Vec<u8> = (0..m).map(|i| amb[(r + i) % 12]).collect();
+                            row.extend((0..rest).map(|i| match pat {
+                                0 => b'A',
+                                1 => b"AC"[i % 2],
+                                2 => if i == 0 { b'A' } else { b'C' },
+                                _ => if i + 1 == rest { b'G' } else { b'T' },
+                            }));
+                            if mirror {
+                                row.reverse();
+                            }
+                            if row.iter().all(|b| *b == b'-') {
+                                continue;
+                            }
+                            let second: Vec<u8> = (0..n).map(|i| if i % 3 == 0 { b'-' } else { b'C' }).collect();
+                            let t = table_of(&[row, second]);
+                            run_table(rep, &t, &specs, false);
+                            rep.corner("symbol_rich_rows");
+                        }
+                    }
+                }
+                if ctx.expired() {
+                    capped = true;
+                    break 'c2;
+                }
+            }
+            rep.completed.push(format!("(c2) symbol-rich rows, {n} samples"));
         }
     }
     // sizes around powers of two: every row count 1..200 (three samples, cycling patterns) and sample counts around 32,
